@@ -26,6 +26,7 @@ import (
 	"os"
 	"os/exec"
 	"path/filepath"
+	"reflect"
 	"runtime"
 	"strconv"
 	"strings"
@@ -68,13 +69,28 @@ func (a av) tokens(out *[]string) {
 	*out = append(*out, a.pay)
 }
 
-// what appendJsonMarshal's encoder produces: (true, text without the final newline) or (false, message)
+// what appendJsonMarshal's encoder produces: (true, text without the final newline) or (false, message).
+// A panic raised by a MarshalJSON / MarshalText method inside encoding/json is an encoding error whose
+// text is "!PANIC: <value>" ("<nil>" for a nil pointer receiver), like log/slog and fmt.
 func encodeOracle(v any) (ok bool, out []byte) {
 	var bb bytes.Buffer
 	enc := json.NewEncoder(&bb)
 	enc.SetEscapeHTML(false)
-	if err := enc.Encode(v); err != nil {
-		if u, ok := err.(interface{ Unwrap() error }); ok {
+	var err error
+	func() {
+		defer func() {
+			if r := recover(); r != nil {
+				if rv := reflect.ValueOf(v); rv.Kind() == reflect.Pointer && rv.IsNil() {
+					err = errors.New("<nil>")
+				} else {
+					err = fmt.Errorf("!PANIC: %v", r)
+				}
+			}
+		}()
+		err = enc.Encode(v)
+	}()
+	if err != nil {
+		if u, ok := err.(interface{ Unwrap() error }); ok && u.Unwrap() != nil {
 			return false, []byte(u.Unwrap().Error())
 		}
 		return false, []byte(err.Error())
@@ -205,6 +221,18 @@ func (m mFail) MarshalJSON() ([]byte, error) { return nil, errors.New(m.msg) }
 type mGarbage struct{ b string }
 
 func (m mGarbage) MarshalJSON() ([]byte, error) { return []byte(m.b), nil }
+
+type mPanic struct{ v any }
+
+func (m mPanic) MarshalJSON() ([]byte, error) { panic(m.v) }
+
+type tPanic struct{ s string }
+
+func (t tPanic) MarshalText() ([]byte, error) { panic(t.s) }
+
+type pPanic struct{ x int }
+
+func (p *pPanic) MarshalJSON() ([]byte, error) { return []byte(strconv.Itoa(p.x)), nil } // nil receiver: nil dereference
 
 type tmText struct{ s string }
 
@@ -365,7 +393,20 @@ func (g *gen) leaf() slog.Value {
 		}
 		return slog.AnyValue(mOK{s})
 	case 19:
-		return slog.AnyValue(mFail{g.str()})
+		switch g.r.Intn(6) {
+		case 0:
+			return slog.AnyValue(mPanic{g.str()})
+		case 1:
+			return slog.AnyValue(mPanic{errors.New(g.str())})
+		case 2:
+			return slog.AnyValue(tPanic{g.str()})
+		case 3:
+			return slog.AnyValue(struct{ A any }{mPanic{42}}) // panics below the top-level value
+		case 4:
+			return slog.AnyValue(struct{ P *pPanic }{nil}) // encoding/json writes null for a nil pointer, no call
+		default:
+			return slog.AnyValue(mFail{g.str()})
+		}
 	case 20:
 		return slog.AnyValue(mGarbage{[]string{"", "{", "{\"a\":}", "nul", "1 2", "[1,]", "\"\n\"", "{\"a\":1}}", "\"\\x\"", "01", "tru", "}"}[g.r.Intn(12)]})
 	case 21:
